@@ -17,6 +17,7 @@ ES_SERIALS = {'ESU': '95048ESU123W0001', 'EMU': '95048EMU123W0001', 'BPS': '9500
 
 
 def run(coro):
+    if SI.E2E['on']: return SI.run_e2e(coro)
     return asyncio.run(coro)
 
 
@@ -29,6 +30,9 @@ def make_et(goodwe, serial, rated, refuse=(), battery_mode=2, seed=0, arm_fw=19,
     sim = SI.Sim(seed=seed, refuse=[BLOCKS[b] for b in refuse])
     SI.et_identity(sim, serial=serial, rated=rated, arm_fw=arm_fw)
     sim.set(35184, battery_mode)
+    if SI.E2E['on']:
+        inv = goodwe.ET(SI.e2e_host(sim), port, comm_addr); inv._sim = sim
+        return inv, sim
     inv = SI.attach(goodwe.ET('192.0.2.1', port, comm_addr), sim)
     return inv, sim
 
@@ -36,6 +40,9 @@ def make_et(goodwe, serial, rated, refuse=(), battery_mode=2, seed=0, arm_fw=19,
 def make_dt(goodwe, serial, refuse_meter=False, seed=0, port=8899, comm_addr=0):
     sim = SI.Sim(seed=seed, refuse=[(30195, 30209)] if refuse_meter else [])
     SI.dt_identity(sim, serial=serial)
+    if SI.E2E['on']:
+        inv = goodwe.DT(SI.e2e_host(sim), port, comm_addr); inv._sim = sim
+        return inv, sim
     inv = SI.attach(goodwe.DT('192.0.2.1', port, comm_addr), sim)
     return inv, sim
 
@@ -46,6 +53,9 @@ def make_es(goodwe, serial, firmware='2314E', seed=0):
     rng = sim.rng
     sim.runtime[:] = bytes(rng.randrange(256) for _ in range(len(sim.runtime)))
     sim.settings[:] = bytes(rng.randrange(2) for _ in range(len(sim.settings)))
+    if SI.E2E['on']:
+        inv = goodwe.ES(SI.e2e_host(sim), 8899); inv._sim = sim
+        return inv, sim
     inv = SI.attach(goodwe.ES('192.0.2.1', 8899), sim)
     return inv, sim
 
@@ -113,15 +123,26 @@ def check_keys(inv, data):
 
 
 def mon_runtime(st, ctx, goodwe, want=('C15', 'C14')):
-    """C15: keys == sensors() ids, success no later than the second call; C14: no decode reads past the fetched window"""
+    """C15: keys == sensors() ids, success no later than the second call; C14: no decode reads past the fetched window.
+    Twice: with the simulator behind _read_from_socket, and (a quarter of the configurations) END TO END through the real Udp / TcpInverterProtocol
+    on the virtual-time loop, refused blocks answered with Modbus exception frames"""
+    _mon_runtime(st, ctx, goodwe, want, False)
+    with SI.e2e():
+        _mon_runtime(st, ctx, goodwe, want, True)
+
+
+def _mon_runtime(st, ctx, goodwe, want, e2e):
     KNOWN = {'apparent_power2', 'apparent_power3'}
+    tagx = ' [end to end]' if e2e else ''
     # every configuration twice for C15: sensors() asked only after each poll / also before the first poll and between the polls (an application
     # that creates its entities from sensors() right after read_device_info())
-    for (tag, serial, rated, sub, bm), listed in [(c, l) for c in et_configs(ctx.rng, ctx.deep) for l in ((False, True) if 'C15' in want else (False,))]:
-        inv, sim = make_et(goodwe, serial, rated, sub, bm, seed=ctx.rng.randrange(1 << 30))
+    ecfgs = et_configs(ctx.rng, ctx.deep)
+    if e2e: ecfgs = ecfgs[:: (4 if not ctx.deep else 16)]
+    for (tag, serial, rated, sub, bm), listed in [(c, l) for c in ecfgs for l in ((False, True) if 'C15' in want and not e2e else (False,))]:
+        inv, sim = make_et(goodwe, serial, rated, sub, bm, seed=ctx.rng.randrange(1 << 30), port=(502 if e2e and ctx.rng.random() < 0.4 else 8899))
         sr = ShortReads(goodwe)
         inv._map_response = sr.map_response
-        cfg = dict(family='ET', model=tag, serial=serial, rated_power=rated, refused=list(sub), battery_mode=bm, sensors_listed_before_each_poll=listed)
+        cfg = dict(family='ET', model=tag, serial=serial, rated_power=rated, refused=list(sub), battery_mode=bm, sensors_listed_before_each_poll=listed, end_to_end=e2e, port=inv._protocol._port if hasattr(inv._protocol, '_port') else None)
         try:
             run(inv.read_device_info())
             outcomes = []
@@ -133,12 +154,12 @@ def mon_runtime(st, ctx, goodwe, want=('C15', 'C14')):
                     ok, missing, extra = check_keys(inv, data)
                     outcomes.append('ok')
                     if not ok and 'C15' in want:
-                        st.violation('keys-differ', f'ET {tag} rated {rated} refusing {list(sub)} battery_mode {bm}: call {call + 1}: in sensors() but not in the result: '
+                        st.violation('keys-differ', f'ET {tag}{tagx} rated {rated} refusing {list(sub)} battery_mode {bm}: call {call + 1}: in sensors() but not in the result: '
                                                     f'{missing[:6]}; in the result but not in sensors(): {extra[:6]}', dict(config=cfg, call=call + 1))
                 except Exception as ex:     # noqa
                     outcomes.append(type(ex).__name__)
             if 'C15' in want and 'ok' not in outcomes[:2]:
-                st.violation('no-success-by-second-call', f'ET {tag} rated {rated} refusing {list(sub)}: outcomes of three calls {outcomes}', dict(config=cfg, outcomes=outcomes))
+                st.violation('no-success-by-second-call', f'ET {tag}{tagx} rated {rated} refusing {list(sub)}: outcomes of three calls {outcomes}', dict(config=cfg, outcomes=outcomes))
             if 'C15' in want and outcomes[0] == 'ok' and outcomes[1:] != ['ok', 'ok'] or (outcomes[1] == 'ok' and outcomes[2] != 'ok'):
                 if 'C15' in want: st.violation('fails-after-success', f'ET {tag} rated {rated} refusing {list(sub)}: outcomes {outcomes}', dict(config=cfg, outcomes=outcomes))
             if 'C14' in want:
@@ -146,12 +167,13 @@ def mon_runtime(st, ctx, goodwe, want=('C15', 'C14')):
                     key = 'mppt-window' if sid in KNOWN and first == 35301 else 'short-read'
                     st.violation(key, f'ET {tag} rated {rated} refusing {list(sub)}: sensor {sid} decoded past the end of the answer to READ {count} registers from {first}',
                                  dict(config=cfg, sensor=sid, first=first, count=count))
-            st.case(('ET', serial, rated, sub, bm, listed), sample=dict(config=cfg, outcomes=outcomes) if len(st.samples) < 3 else None)
+            st.case(('ET', serial, rated, sub, bm, listed, e2e), sample=dict(config=cfg, outcomes=outcomes) if len(st.samples) < 3 else None)
         finally:
             sr.restore()
     # a request lost in the middle of a call (the call fails with RequestFailedException, which the property allows); the calls
     # after it must again return exactly the listed sensors, decoded from inside the fetched windows
     lossy = [c for c in et_configs(ctx.rng, False) if {'meter_ext2', 'meter_ext', 'battery', 'mppt'} & set(c[3])]
+    if e2e: lossy = []          # end to end a lost request is retransmitted by the protocol: covered by the protocol properties
     for tag, serial, rated, sub, bm in lossy[:: (4 if not ctx.deep else 1)]:
         for k in range(1, 7):
             inv, sim = make_et(goodwe, serial, rated, sub, bm, seed=ctx.rng.randrange(1 << 30))
@@ -205,7 +227,7 @@ def mon_runtime(st, ctx, goodwe, want=('C15', 'C14')):
                     for sid, first, count in sr.events:
                         st.violation('short-read', f'DT {tag}: sensor {sid} decoded past the end of the answer to READ {count} registers from {first}',
                                      dict(config=cfg, sensor=sid, first=first, count=count))
-                st.case(('DT', serial, refuse))
+                st.case(('DT', serial, refuse, e2e))
             finally:
                 sr.restore()
     if 'C15' in want:
@@ -216,7 +238,7 @@ def mon_runtime(st, ctx, goodwe, want=('C15', 'C14')):
                 data = run(inv.read_runtime_data())
                 ok, missing, extra = check_keys(inv, data)
                 if not ok: st.violation('keys-differ', f'ES {tag}: missing {missing[:6]} extra {extra[:6]}', dict(config=dict(family='ES', serial=serial)))
-            st.case(('ES', serial))
+            st.case(('ES', serial, e2e))
 
 
 # ------------------------------------------------------------------------------------------------ C16
@@ -252,6 +274,32 @@ def mon_single(st, ctx, goodwe):
         cfg = dict(family='DT', model=tag, serial=serial)
         run(inv.read_device_info()); data = run(inv.read_runtime_data())
         _compare_single(st, inv, data, cfg)
+    # the SETTINGS api used before the single reads: ids that name both a sensor and a setting (ET: work_mode, battery_modules, ...), every setting
+    # read once, the getters that read settings -- none of it may change what read_sensor(id) fetches
+    variants = [('ET', lambda: make_et(goodwe, ET_SERIALS['205 three-phase'], 10000, (), 2, seed=ctx.rng.randrange(1 << 30), arm_fw=22)),
+                ('ET 745', lambda: make_et(goodwe, ET_SERIALS['745 HV'], 15000, ('meter_ext2',), 2, seed=ctx.rng.randrange(1 << 30), arm_fw=22)),
+                ('DT', lambda: make_dt(goodwe, DT_SERIALS['three-phase'], False, seed=ctx.rng.randrange(1 << 30)))]
+    for fam, mk in variants:
+        for order in ('settings-first', 'sensors-first'):
+            inv, sim = mk()
+            run(inv.read_device_info())
+            shared = sorted({x.id_ for x in inv.sensors()} & {x.id_ for x in inv.settings()})
+            cfg = dict(family=fam, history=f'{order}: read_setting of the ids that are also sensors {shared}, every getter, then read_sensor of every id')
+            if order == 'sensors-first':
+                try: data = run(inv.read_runtime_data())
+                except Exception: data = run(inv.read_runtime_data())    # noqa
+                for i in shared:
+                    try: run(inv.read_sensor(i))
+                    except Exception: pass     # noqa
+            for i in shared + [x.id_ for x in inv.settings()][:: (1 if ctx.deep else 5)]:
+                try: run(inv.read_setting(i))
+                except Exception: pass         # noqa
+            for g in ('get_operation_mode', 'get_grid_export_limit', 'get_ongrid_battery_dod'):
+                try: run(getattr(inv, g)())
+                except Exception: pass         # noqa
+            try: data = run(inv.read_runtime_data())
+            except Exception: data = run(inv.read_runtime_data())        # noqa
+            _compare_single(st, inv, data, cfg)
 
 
 def _compare_single(st, inv, data, cfg, only_prefix=None):
@@ -484,6 +532,28 @@ def mon_readonly(st, ctx, goodwe):
                 st.violation('invalid-argument-written', f'{name}: {meth}{tuple(repr(a) for a in args)} transmitted {sent[-1]["raw"].hex()}', dict(object=name, call=meth, args=[repr(a) for a in args]))
             if meth in ('set_operation_mode', 'write_setting') and not isinstance(raised, ValueError):
                 st.violation('no-valueerror', f'{name}: {meth}{tuple(repr(a) for a in args)} did not raise ValueError (raised {raised!r})', dict(object=name, call=meth, args=[repr(a) for a in args]))
+        # a setting id that became unknown BY HISTORY: the inverter refused its register on a read (ILLEGAL DATA ADDRESS), so it is no longer listed by
+        # settings(); writing it afterwards must raise ValueError and transmit nothing, like any other unknown id
+        if not name.startswith('ES'):
+            cand = [x for x in inv.settings() if type(x).__name__ in ('Integer', 'IntegerS', 'Decimal', 'ByteH', 'ByteL')]
+            for x in ([cand[0], cand[len(cand) // 2], cand[-1]] if len(cand) >= 3 else cand):
+                nreg = max(1, (x.size_ + 1) // 2)
+                sim.refuse.append((x.offset, x.offset + nreg - 1))
+                try: run(inv.read_setting(x.id_))
+                except Exception: pass         # noqa
+                sim.refuse.pop()
+                if x.id_ in {y.id_ for y in inv.settings()}: continue        # still a known setting: nothing to check
+                n0 = len(sim.log); raised = None
+                try: run(inv.write_setting(x.id_, 1))
+                except Exception as ex: raised = ex      # noqa
+                st.case((name, 'write-after-rejected-read', x.id_))
+                sent = [e for e in sim.log[n0:] if e in sim.writes()]
+                if sent:
+                    st.violation('invalid-argument-written', f'{name}: write_setting({x.id_!r}, 1) after read_setting({x.id_!r}) was refused (the id is no longer listed by settings()) '
+                                                             f'transmitted {sent[-1]["raw"].hex()}', dict(object=name, call='write_setting', args=[x.id_, 1], history='read refused with ILLEGAL DATA ADDRESS'))
+                if not isinstance(raised, ValueError):
+                    st.violation('no-valueerror', f'{name}: write_setting({x.id_!r}, 1) of an id no longer listed by settings() did not raise ValueError (raised {raised!r})',
+                                 dict(object=name, call='write_setting', args=[x.id_, 1], history='read refused with ILLEGAL DATA ADDRESS'))
 
 
 # ------------------------------------------------------------------------------------------------ C19
@@ -570,6 +640,41 @@ def mon_modes(st, ctx, goodwe):
                 if got != m1:
                     st.violation('mode', f'ET {vname}: set {m1.name}, {m2.name}, {m1.name}: get_operation_mode() = {getattr(got, "name", got)}',
                                  dict(family='ET', variant=vname, modes=[m1.name, m2.name, m1.name]))
+    # one WRITE of the setter refused by the inverter with a Modbus exception other than ILLEGAL DATA ADDRESS (slave busy, illegal value, device failure):
+    # a setter that nevertheless returns normally has claimed success, so the getter must report what was set
+    for vname, serial, refuse in variants[:3]:
+        for code in (6, 3, 4, 1):
+            for k in (1, 2, 3):
+                inv, sim = make_et(goodwe, serial, 10000, refuse, 2, seed=ctx.rng.randrange(1 << 30))
+                run(inv.read_device_info())
+                v2 = 'eco_v2' not in refuse
+                base = 47547 if v2 else 47515
+                for m in run(inv.get_operation_modes(True)):
+                    if k > 1 and m not in (OM.ECO_CHARGE, OM.ECO_DISCHARGE, OM.OFF_GRID, OM.GENERAL): continue
+                    raw = bytes.fromhex(ECO_PRIORS['empty-off'])
+                    if not v2: raw = raw[:4] + raw[6:8] + bytes([raw[4], raw[5]])
+                    sim.set_bytes(base, raw[: 12 if v2 else 8])
+                    sim.set(47000, (int(m) + 1) % 3 if int(m) < 6 else 0)       # a different mode before
+                    for a in (47549, 47555, 47561, 47567, 47518, 47522, 47526, 47530): sim.set(a, 0xff7f)
+                    sim.reject_write = dict(n=k, code=code)
+                    cfg = dict(family='ET', variant=vname, mode=m.name, power=40, soc=80, refused_write=k, exception_code=code)
+                    st.case(('ET', vname, 'refused-write', m.name, k, code))
+                    _mode_case(st, inv, sim, OM, m, 40, 80, cfg, v2, base)
+                    sim.reject_write = None
+                if k == 1:
+                    for setter, getter, old, new, key in (('set_grid_export_limit', 'get_grid_export_limit', 5000, 4000, 'export-limit'), ('set_ongrid_battery_dod', 'get_ongrid_battery_dod', 20, 50, 'dod')):
+                        try: run(getattr(inv, setter)(old))
+                        except Exception: continue      # noqa
+                        sim.reject_write = dict(n=1, code=code)
+                        st.case(('ET', vname, 'refused-write', setter, code))
+                        try: run(getattr(inv, setter)(new))
+                        except Exception as ex:     # noqa
+                            st.count('set-refused:' + type(ex).__name__); sim.reject_write = None; continue
+                        sim.reject_write = None
+                        got = run(getattr(inv, getter)())
+                        if got != new:
+                            st.violation(key, f'ET {vname}: {setter}({new}) returned normally although the inverter refused the write with exception code {code}; {getter}() = {got}',
+                                         dict(family='ET', variant=vname, value=new, exception_code=code))
     # ES
     for serial, fw in (('95048ESU123W0001', '2314E'), ('95048ESU123W0001', '1005A'), ('95048EMU123W0001', '1107B'), ('95000BPS123W0001', '0606A')):
         inv, sim = make_es(goodwe, serial, fw, seed=ctx.rng.randrange(1 << 30)); run(inv.read_device_info())
@@ -631,9 +736,9 @@ def _mk_pair(goodwe, kinds, seeds):
     objs = []
     for (fam, serial, refuse, prior), seed in zip(kinds, seeds):
         if fam == 'ET':
-            inv, sim = make_et(goodwe, serial, 10000, refuse, 2, seed=seed, port=prior.get('port', 8899), comm_addr=prior.get('comm_addr', 0))
+            inv, sim = make_et(goodwe, serial, prior.get('rated', 10000), refuse, 2, seed=seed, port=prior.get('port', 8899), comm_addr=prior.get('comm_addr', 0))
             if 'g1' in prior: sim.set_bytes(47547, bytes.fromhex(prior['g1'])); sim.set_bytes(47515, bytes.fromhex(prior['g1'])[:8])
-        elif fam == 'DT': inv, sim = make_dt(goodwe, serial, False, seed=seed, comm_addr=prior.get('comm_addr', 0))
+        elif fam == 'DT': inv, sim = make_dt(goodwe, serial, prior.get('refuse_meter', False), seed=seed, comm_addr=prior.get('comm_addr', 0))
         else: inv, sim = make_es(goodwe, serial, prior.get('fw', '2314E'), seed=seed)
         run(inv.read_device_info())
         objs.append((inv, sim))
@@ -694,6 +799,10 @@ def mon_indep(st, ctx, goodwe_unused):
         ('DT', DT_SERIALS['three-phase'], (), {}), ('ES', ES_SERIALS['ESU'], (), dict(fw='2314E')), ('ES', ES_SERIALS['ESU'], (), dict(fw='1005A')),
         ('ET', ET_SERIALS['205 three-phase'], (), dict(g1='0000173bff7fffce00500000', comm_addr=0x25)), ('DT', DT_SERIALS['three-phase'], (), dict(comm_addr=0xf7)),
         ('ET', ET_SERIALS['745 HV'], (), dict(g1='0000173bf97ffe0c00500fff', port=502, comm_addr=0x11)),
+        # models that have the optional blocks (MPPT, second battery, extended meter): one inverter serves them, another one refuses some of them
+        ('ET', ET_SERIALS['745 HV'], (), dict(g1='0000173bf97ffe0c00500fff', rated=20000)), ('ET', ET_SERIALS['745 HV'], ('mppt',), dict(g1='0000173bf97ffe0c00500fff', rated=15000)),
+        ('ET', ET_SERIALS['2-battery 3-MPPT'], (), dict(g1='0000173bff7fffce00500000', rated=25000)), ('ET', ET_SERIALS['2-battery 3-MPPT'], ('battery2', 'mppt'), dict(g1='0000173bff7fffce00500000', rated=25000)),
+        ('ET', ET_SERIALS['745 HV'], ('battery', 'meter_ext2'), dict(g1='0000173bf97ffe0c00500fff', rated=15000)), ('DT', DT_SERIALS['three-phase'], (), dict(refuse_meter=True)),
     ]
     n = 40 if not ctx.deep else 400
     menu = _ops_menu()
@@ -709,6 +818,9 @@ def mon_indep(st, ctx, goodwe_unused):
         # same register ranges, different communication addresses / transports
         (P[2], P[8], [menu[0], menu[3]], [menu[0], menu[3], menu[12]], [0, 1, 0, 1, 1]), (P[8], P[2], [menu[12], menu[3]], [menu[12], menu[3], menu[0]], [0, 1, 0, 1, 1]),
         (P[5], P[9], [menu[0], menu[12]], [menu[0], menu[12]], [0, 1, 0, 1]), (P[2], P[9], [menu[12]], [menu[12]], [0, 1]), (P[4], P[10], [menu[0], menu[3]], [menu[0], menu[3]], [0, 1, 0, 1]),
+        # an inverter that refuses optional blocks polls first, then one of the same class that serves them (and the other way round)
+        (P[12], P[11], [menu[0], menu[0]], [menu[0], menu[0]], [0, 1, 0, 1]), (P[14], P[13], [menu[0], menu[0]], [menu[0], menu[0]], [0, 1, 0, 1]), (P[15], P[11], [menu[0], menu[0]], [menu[0], menu[0]], [0, 1, 0, 1]),
+        (P[11], P[12], [menu[0], menu[0]], [menu[0], menu[0]], [0, 1, 0, 1]), (P[16], P[5], [menu[0], menu[0]], [menu[0], menu[0]], [0, 1, 0, 1]),
     ]
     for trial in range(n + len(fixed)):
         seeds = [ctx.rng.randrange(1 << 30), ctx.rng.randrange(1 << 30)]
